@@ -76,6 +76,9 @@ func init() {
 				a = ""
 			}
 			s.A = a
+			if (s.Op == "par_push" || s.Op == "device_authz") && t.Chance(14) {
+				s.A = "as_other" // these two endpoints take the client from the body's client_id: it must be the authenticated one
+			}
 			steps = append(steps, s)
 			if t.Chance(6) {
 				steps = append(steps, Step{Op: "client_change", C: c, V: fmt.Sprintf("rotate_secret:rotated-in-run-%d", len(steps))})
